@@ -147,6 +147,25 @@ def large_x_cases(ctx):
                                                  'nd.Derivative(lambda x: %s, n=%d, method=%r, order=%d)(%r) = %r, exact %r (error %.3g, envelope %.3g x local scale 1)' % (
                                                      fname, n, method, order, x0, got, exact, err, 100 * ENVELOPE[n]),
                                                  {'f': fname, 'x': x0, 'n': n, 'method': method, 'order': order, 'got': got, 'exact': exact})
+    # complex-valued f with the real-step methods (the property's last clause): exp((1+2j) x) and 1/(x + 1j), every n and rule length
+    import cmath
+    for fname, f, dk in (('np.exp((1+2j)*x)', lambda x: np.exp((1 + 2j) * x), lambda x, k: (1 + 2j) ** k * cmath.exp((1 + 2j) * x)),
+                         ('1/(x + 1j)', lambda x: 1.0 / (x + 1j), lambda x, k: (-1) ** k * math.factorial(k) / (x + 1j) ** (k + 1))):
+        for method in ('central', 'forward', 'backward'):
+            for n in (0, 1, 2, 3):
+                for order in (2, 4, 6):
+                    for xs in (0.3, np.array([0.3, -0.6])):
+                        try:
+                            got = complex(np.ravel(nd.Derivative(f, n=n, method=method, order=order)(xs))[0])
+                        except Exception as ex:   # noqa
+                            return ctx.violation('raises-complex-f:%s:%d' % (method, n), 'nd.Derivative(lambda x: %s, n=%d, method=%r, order=%d)(%r) raises %r' % (fname, n, method, order, xs, ex),
+                                                 {'f': fname, 'n': n, 'method': method, 'order': order})
+                        ctx.count(1, ('complex-f', method, n))
+                        exact = dk(0.3, n)
+                        if not abs(got - exact) <= 1e-6 * max(1.0, abs(exact)) * 10.0 ** n:
+                            return ctx.violation('accuracy-complex-f:%s:%d' % (method, n),
+                                                 'nd.Derivative(lambda x: %s, n=%d, method=%r, order=%d)(%r)[0] = %r, exact %r' % (fname, n, method, order, np.asarray(xs).tolist(), got, exact),
+                                                 {'f': fname, 'x': np.asarray(xs).tolist(), 'n': n, 'method': method, 'order': order, 'got': repr(got), 'exact': repr(exact)})
     # the offset option of the default generator (steps base * ratio**(-i + offset)): a negative offset only shrinks every step
     for fname, f, dk in (('np.sin(10*x)', lambda x: np.sin(10 * x), lambda x, k: 10.0 ** k * math.sin(10 * x + k * math.pi / 2)),
                          ('np.exp(x)', np.exp, lambda x, k: math.exp(x))):
